@@ -14,7 +14,7 @@ theorem add_spec (a b : Nat) (ha : a < 9223249991064092674) (hb : b < 9223249991
   dsimp only
   refine ⟨by omega, (a + b) / 4611686018427387904, by omega⟩
 
-theorem add_ok_spec (a b : Nat) (ha : a < 9223249991064092674) (hb : b < 9223249991064092674) :
+theorem add_ok_spec (a b : Nat) (_ha : a < 9223249991064092674) (hb : b < 9223249991064092674) :
     add_ok a b = true := by
   unfold add_ok add.s_q add.s_z
   dsimp only
@@ -27,7 +27,7 @@ theorem sub_spec (a b : Nat) (ha : a < 9223249991064092674) (hb : b < 9223249991
   unfold sub
   split <;> omega
 
-theorem sub_ok_spec (a b : Nat) (ha : a < 9223249991064092674) (hb : b < 9223249991064092674) :
+theorem sub_ok_spec (a b : Nat) (_ha : a < 9223249991064092674) (hb : b < 9223249991064092674) :
     sub_ok a b = true := by
   unfold sub_ok
   simp only [decide_eq_true_eq, Bool.and_eq_true]
@@ -87,6 +87,11 @@ theorem low_zero (zl k : Nat)
     k * 4611624995532046337 ≤ zl * 1152890993361043456 := by
   omega
 
+theorem bound_z1 (zh zl q : Nat) (hzh : zh < 4611624995532046337) (hzl : zl < 18446744073709551616)
+    (hq : q < 18446744073709551616) :
+    zh * 18446744073709551616 + zl + q * 4611624995532046337
+      < 170138932113003226433163733718410461184 := by omega
+
 theorem mulCore_spec (z : Nat) (hz : z < 85069466056501613216581866859205230592) :
     mulCore z < 9223249991064092674 ∧
       (∃ q, mulCore z * 18446744073709551616 = z + q * 4611624995532046337) ∧
@@ -109,10 +114,15 @@ theorem mulCore_spec (z : Nat) (hz : z < 85069466056501613216581866859205230592)
   have hw : w < 4611624995532046338 := by omega
   have e : zh * 18446744073709551616 + zl + q * 4611624995532046337 = (zh + w) * 18446744073709551616 := by
     omega
+  have e' := e
   rw [e, Nat.mul_div_cancel _ (by decide : 0 < 18446744073709551616)]
   have e2 : (zh + w) % 18446744073709551616 = zh + w := by omega
   rw [e2]
-  refine ⟨by omega, ⟨q, by omega⟩, hq, by omega⟩
+  clear e e2 hqe h1
+  refine ⟨by omega, ⟨q, ?_⟩, hq, ?_⟩
+  · rw [← e']
+  · rw [← e']
+    exact bound_z1 zh zl q hzh hzl hq
 
 /-- `mul`: Montgomery product of two words with `a·b < M·2^64` (in particular `a, b < 2M`) -/
 theorem mul_spec_gen (a b : Nat) (hz : a * b < 85069466056501613216581866859205230592) :
@@ -139,7 +149,7 @@ theorem mul_ok_gen (a b : Nat) (hz : a * b < 85069466056501613216581866859205230
   generalize a * b = z at *
   have hq' : (z % 18446744073709551616) * 4611624995532046335 < 340282366920938463463374607431768211456 := by
     omega
-  unfold mul.s_z_1 at hz1 ⊢
+  unfold mul.s_z_1 at hz1
   generalize mul.s_q z = q at *
   simp only [decide_eq_true_eq, Bool.and_eq_true]
   omega
@@ -169,6 +179,14 @@ theorem new_ok_spec (v : Nat) (hv : v < 18446744073709551616) : new_ok v = true 
   rw [mul_ok_gen v _ (prod_lt_word v _ hv (by decide))]
   rfl
 
+theorem glue_as_int (n a q : Nat)
+    (h2 : (n + 4611624995532046337) * 18446744073709551616 = a * 1 + q * 4611624995532046337) :
+    n * 18446744073709551616 + 18446744073709551616 * 4611624995532046337
+      = a + q * 4611624995532046337 := by
+  rw [Nat.add_mul, Nat.mul_one] at h2
+  rw [Nat.mul_comm 18446744073709551616 4611624995532046337]
+  exact h2
+
 /-- `as_int`: Montgomery reduction of the word followed by normalisation -/
 theorem as_int_spec (a : Nat) (ha : a < 18446744073709551616) :
     as_int a < 4611624995532046337 ∧
@@ -181,11 +199,13 @@ theorem as_int_spec (a : Nat) (ha : a < 18446744073709551616) :
   generalize mul a 1 = m at *
   generalize normalize m = n at *
   rcases h4 with rfl | h4
-  · exact ⟨q, 0, by omega⟩
-  · exact ⟨q, 18446744073709551616, by omega⟩
+  · exact ⟨q, 0, by rw [Nat.zero_mul, Nat.add_zero, h2, Nat.mul_one]⟩
+  · subst h4
+    exact ⟨q, 18446744073709551616, glue_as_int n a q h2⟩
 
 theorem as_int_ok_spec (a : Nat) (ha : a < 18446744073709551616) : as_int_ok a = true := by
   unfold as_int_ok
+  dsimp only
   rw [mul_ok_gen a 1 (by omega), normalize_ok_spec]
   rfl
 
